@@ -12,7 +12,17 @@ import math, os, sys, json, subprocess, time, fractions
 sys.path.insert(0, os.path.dirname(os.path.dirname(os.path.abspath(__file__))))
 from common import *
 
-KNOWN_PATTERNS = [(2, 2, 2, 3, 2, 2), (2, 2, 2, 5, 2, 2)]
+def _known_patterns():
+    """the orders_are({...}) guards of get_evaluator as translated into Generated.v on this run (fallback: the two of the pinned tree)"""
+    try:
+        txt = open(os.path.join(COQDIR, "theories", "Generated.v")).read()
+        pats = [tuple(int(x) for x in m.split(";")) for m in re.findall(r"mkKnown\s+\w+\s+\[([0-9; ]+)\]", txt)]
+        if pats:
+            return sorted(set(pats))
+    except OSError:
+        pass
+    return [(2, 2, 2, 3, 2, 2), (2, 2, 2, 5, 2, 2)]
+KNOWN_PATTERNS = _known_patterns()
 
 # ------------------------------------------------------------------------------------------------
 def gen_knots(rng, order, extra, style, scale=1.0, offset=0.0):
@@ -60,6 +70,23 @@ def gen_orders(rng, ndim, pattern):
         return [3] * ndim
     if pattern == "known":
         return list(rng.choice(KNOWN_PATTERNS))
+    # near misses of the dispatch guards (the case splits of C03_dispatch_sound): a known pattern extended by further
+    # dimensions, cut short, or with one entry changed; a constant order with one deviating dimension
+    if pattern == "known_ext":
+        return list(rng.choice(KNOWN_PATTERNS)) + [rng.rint(0, 3) for _ in range(rng.rint(1, 3))]
+    if pattern == "known_cut":
+        kp = list(rng.choice(KNOWN_PATTERNS))
+        return kp[:rng.rint(1, len(kp) - 1)]
+    if pattern == "known_perturb":
+        kp = list(rng.choice(KNOWN_PATTERNS))
+        i = rng.below(len(kp))
+        kp[i] = max(0, kp[i] + rng.choice([-1, 1]))
+        return kp
+    if pattern == "const_but_one":
+        k = rng.rint(1, 4)
+        os_ = [k] * max(2, ndim)
+        os_[rng.below(len(os_))] = k + rng.choice([-1, 1])
+        return os_
     return [rng.rint(0, 5) for _ in range(ndim)]
 
 def gen_coef(rng, style):
@@ -98,6 +125,7 @@ def gen_table(rng, ndim=None, max_coefs=60000, pattern=None, knot_style=None, co
     if pattern == "known":
         ndim = 6
     orders = gen_orders(rng, ndim, pattern)
+    ndim = len(orders)
     # keep the coefficient array within bounds: extra knots shrink with ndim
     while True:
         extras = []
@@ -114,7 +142,7 @@ def gen_table(rng, ndim=None, max_coefs=60000, pattern=None, knot_style=None, co
             maxextra = max(0, maxextra - 1)
             if maxextra == 0 and nco > max_coefs:
                 # constant/known patterns at minimal knots can still be too big for 9 dims with order 5: lower ndim
-                if pattern == "known":
+                if pattern.startswith("known"):
                     break
                 ndim = max(1, ndim - 1)
                 orders = orders[:ndim]
@@ -454,7 +482,8 @@ class EvalCheck:
             ann = [l[1:] for l in err.split("\n") if l.startswith("@")]
             return {}, [], [(ann[-1] if ann else "<unknown>", "timeout")]
     def impl_timeout(self):
-        return 1800
+        # a shard of a quick run takes seconds; a hang (non-terminating lookup) must surface as a finding, not stall the check
+        return 120 if getattr(self, "_tier", "quick") == "quick" else 1200
 
     def build(self, ftag, fargs):
         return build_harness("eval_" + ftag, ["eval_harness.cpp"], tag="eval_" + ftag, **fargs)
@@ -512,6 +541,7 @@ class EvalCheck:
 
     def run(self, info, out):
         tier, seed = info["tier"], info["seed"]
+        self._tier = tier
         stats = {}
         if info.get("replay"):
             return self.replay(info["replay"], out)
